@@ -36,6 +36,28 @@ func (C03) Gen(r *core.Rng, tier string, emit func(string)) {
 			emit("ddes " + hexOrDash(specEncodeDir(es, func(int) bool { return fl })) + " # " + fmtEntries(es))
 		}
 	}
+	// uncompressed directories whose first bytes look like a compressed stream's magic number: 31 entries and a
+	// first tile ID ≡ 11 (mod 128), ≥ 128 serialise to 1f 8b … (gzip; 1035 gives 1f 8b 08), 40 entries starting
+	// at 6069 with a second delta of 253 to 28 b5 2f fd (zstd) — content sniffing must not override the header
+	for _, sh := range []struct {
+		n      int
+		first  uint64
+		delta2 uint64
+	}{{31, 139, 1}, {31, 1035, 1}, {31, 11 + 128*5, 7}, {40, 6069, 253}, {31, 139 + 128*128, 1}} {
+		es := make([]pmtiles.EntryV3, sh.n)
+		id := sh.first
+		for i := range es {
+			es[i] = pmtiles.EntryV3{TileID: id, Offset: uint64(i) * 7, Length: 7, RunLength: 1}
+			if i == 0 {
+				id += sh.delta2
+			} else {
+				id += 1 + uint64(r.Intn(3))
+			}
+		}
+		emit("dser none " + fmtEntries(es))
+		emit("dser gzip " + fmtEntries(es))
+		emit("ddes " + hexOrDash(specEncodeDir(es, func(int) bool { return true })) + " # " + fmtEntries(es))
+	}
 	// highly regular directories (consecutive IDs, equal lengths, contiguous offsets): they compress
 	// to far fewer bytes than they have entries — size-based sanity checks must not reject them
 	for _, k := range []int{60, 61, 200, 1000, 4096, 9000} {
